@@ -42,7 +42,8 @@ def describe(tier):
                 f"different entered inputs ({len(INPUT_SETS)} input pairs / {len(INPUT_SETS3)} triples incl. None and '') and format constraints "
                 "that share one FC key; the FC evaluator answers fulfilled=(text=='good') and echoes the text it was given; RC, FC and "
                 "package evaluators all suspend; one element sits behind a package (a yield BEFORE the ContextVar is set); every layout is "
-                "also run in an ambient context in which the ContextVar already holds a foreign text. ALL completion orders of the pending "
+                "also run in an ambient context in which the ContextVar already holds a foreign text; three layouts are also run as TWO validations of two AHBs (other inputs) "
+                "started concurrently as tasks in one loop, each judged like a single validation. ALL completion orders of the pending "
                 f"awaitables are enumerated on the virtual event loop for 2 elements (3 elements: "
                 f"{'all orders' if b['three_bound'] is None else '<= %d deviations from oldest-first' % b['three_bound']}), plus <= {b['early']} "
                 "early/batched completion. Oracle: for every schedule the result list equals the zero-yield baseline; each free-text "
@@ -69,6 +70,12 @@ def plan(tier, seed):
                         continue
                     items.append({"layout": lname, "exprs": ei, "inputs": ii, "ambient": ambient, "early": b["early"],
                                   "order_bound": None if n == 2 else b["three_bound"]})
+    # TWO validations of two AHBs running concurrently in one event loop (a server handling two messages), each started as a task
+    for lname in ("same-segment-2", "two-segments-2", "nested-group-2"):
+        for ei in (0, 1, 4):
+            for ii in (0, 2, 5, 8):
+                items.append({"layout": lname, "exprs": ei, "inputs": ii, "ambient": None, "early": 0, "order_bound": 2 if tier == "quick" else 3,
+                              "concurrent_with": (ii + 1) % len(INPUT_SETS[:6])})
     return items
 
 
@@ -133,6 +140,16 @@ def _factory(item, zero, solo=None):
                 el = _V.build_element(elems[solo])
                 return _V.observe([await _V.validate_data_element_freetext(el, _V.STATUS["IS_REQUIRED"])])
             ahb = _V.build_ahb(top)
+            if item.get("concurrent_with") is not None and solo is None:
+                import asyncio
+                import contextvars
+
+                other_top, _ = _model(dict(item, inputs=item["concurrent_with"]))
+                loop = asyncio.get_running_loop()
+                tasks = [loop.create_task(_V.validate_deep_anwendungshandbuch(a), context=contextvars.copy_context())
+                         for a in (ahb, _V.build_ahb(other_top))]
+                both = await asyncio.gather(*tasks)
+                return {"first": _V.observe(both[0]), "second": _V.observe(both[1])}
             return _V.observe(await _V.validate_deep_anwendungshandbuch(ahb))
 
         return c12._with_env(env, go)
@@ -150,6 +167,11 @@ def _oracle(item, observed_json):
     """violations of one observed result list against the solo runs + echo rule"""
     out = []
     obs = json.loads(observed_json)
+    if isinstance(obs, dict):
+        # two concurrent validations: each result list is judged like a single validation of its own AHB
+        a = _oracle(dict(item, concurrent_with=None), json.dumps(obs["first"]))
+        b = _oracle(dict(item, concurrent_with=None, inputs=item["concurrent_with"]), json.dumps(obs["second"]))
+        return [(k + "/concurrent-validations", e, o) for k, e, o in a + b]
     if obs and obs[0] == "exception":
         return [("validation-raised", "a result list", obs[1])]
     top, elems = _model(item)
@@ -204,7 +226,7 @@ def run_item(item):
     r.stat("schedules", exp.schedules)
     r.stat("choice_points", exp.choice_points)
     r.stat("distinct_completion_traces", len(exp.completion_traces))
-    r.outcomes.add((item["layout"], item["exprs"], item["inputs"], item["ambient"], len(exp.outcomes)))
+    r.outcomes.add((item["layout"], item["exprs"], item["inputs"], item["ambient"], item.get("concurrent_with"), len(exp.outcomes)))
     for out in set(exp.outcomes) | {base}:
         choices = exp.first_schedule_of_outcome.get(out, [])
         case = {"item": item, "choices": choices, "zero_yield": out not in exp.outcomes}
